@@ -11,6 +11,11 @@ generic in the number type (`int1d`, used with mpmath as arbiter).  No import of
 """
 import numpy as np
 
+# Conditioning mode (set through r3.conditioning()): every sum over terms of mixed sign is replaced by the sum of their magnitudes.
+# The result bounds, up to a modest factor, the rounding error of any evaluation that adds up these terms (and is the natural
+# scale of an element when the terms cancel, e.g. by symmetry).
+ABS = False
+
 
 def _mul_linear(poly, c):
     """(poly in t, coefficients on the last axis) * (t + c)."""
@@ -38,6 +43,12 @@ def table1d(alpha, A, beta, B, imax, jmax, C=0.0, kmax=0):
     pref = np.exp(-alpha * beta / p * (A - B) ** 2)
     mom = _gauss_moments(p, imax + jmax + kmax)
     out = np.zeros((imax + 1, jmax + 1, kmax + 1) + p.shape)
+    dA, dB, dC = P - A, P - B, P - C
+    if ABS:
+        # the distances themselves carry the rounding of the coordinates they are formed from (1e-16 |coordinate|, seen from
+        # a tolerance of 1e-10 x this scale as 1e-6 |coordinate|; 1e-5 leaves room for a few operations)
+        delta = 1e-5 * (abs(A) + abs(B) + abs(C))
+        dA, dB, dC = np.abs(dA) + delta, np.abs(dB) + delta, np.abs(dC) + delta
     pi = np.ones(p.shape + (1,))
     for i in range(imax + 1):
         pij = pi
@@ -45,13 +56,13 @@ def table1d(alpha, A, beta, B, imax, jmax, C=0.0, kmax=0):
             pijk = pij
             for k in range(kmax + 1):
                 n = pijk.shape[-1]
-                out[i, j, k] = np.sum(pijk * mom[..., :n], axis=-1) * pref
+                out[i, j, k] = np.sum(np.abs(pijk * mom[..., :n]) if ABS else pijk * mom[..., :n], axis=-1) * pref
                 if k < kmax:
-                    pijk = _mul_linear(pijk, P - C)
+                    pijk = _mul_linear(pijk, dC)
             if j < jmax:
-                pij = _mul_linear(pij, P - B)
+                pij = _mul_linear(pij, dB)
         if i < imax:
-            pi = _mul_linear(pi, P - A)
+            pi = _mul_linear(pi, dA)
     return out
 
 
@@ -75,6 +86,8 @@ def deriv_table(T, beta, jmax, n, k=0):
     out = np.zeros((imax + 1, jmax + 1) + T.shape[3:])
     for j in range(jmax + 1):
         q = ket_deriv_poly(beta, j, n)  # (Kb, j+n+1)
+        if ABS:
+            q = np.abs(q)
         # sum_m q[kb,m] T[i,m,k,ka,kb]
         out[:, j] = np.einsum("bm,imab->iab", q, T[:, : j + n + 1, k])
     return out
